@@ -1,19 +1,27 @@
 #!/bin/sh
-# seed_matrix.sh [ids...]: apply each kept seeded change to /repo in turn, run EVERY claimed check (quick tier), undo the change.
-# Output: seeded/matrix.tsv  (seed, check, exit code, number of VIOLATION lines, first violation kind).  Evidence written during
-# these runs comes from a modified tree: re-run tools/run_all.sh on the clean tree afterwards.
-ROOT=$(cd "$(dirname "$0")/.." && pwd); cd $ROOT
-ids=${*:-$(ls seeded | grep '^C')}
-[ -z "$(git -C /repo status --porcelain)" ] || { echo "/repo not clean"; exit 9; }
+# seed_matrix.sh [seed dirs...]: apply each kept seeded change in turn to a SCRATCH worktree of /repo's HEAD and run EVERY claimed check
+# (quick tier) against it from a SCRATCH copy of /verif (own build directory), so that /repo and /verif stay usable meanwhile.
+# Output: seeded/matrix.tsv (seed, check, exit code, number of VIOLATION lines, first violation kind).  Scratch copies are removed at the end.
+ROOT=$(cd "$(dirname "$0")/.." && pwd)
+WT=$(mktemp -d /tmp/mxwt.XXXXXX); rmdir $WT
+VC=$(mktemp -d /tmp/mxverif.XXXXXX)
+git -C /repo worktree add -q --detach $WT HEAD || exit 9
+rsync -a --exclude .git --exclude replays --exclude evidence "$ROOT/" "$VC/"; mkdir -p $VC/replays $VC/evidence
+export VERIF_REPO=$WT
+( cd $VC && ./build.sh >/dev/null 2>&1 )
+ids=${*:-$(ls $ROOT/seeded | grep '^C')}
+checks=$(python3 -c "import json;print(' '.join(x['property_id'] for x in json.load(open('$ROOT/MANIFEST.json'))['checks']))")
+: > $ROOT/seeded/matrix.tsv.new
 for id in $ids; do
-  git -C /repo apply $ROOT/seeded/$id/patch.diff || { echo "$id APPLY-FAILED"; continue; }
-  for c in $(python3 -c "import json;print(' '.join(x['property_id'] for x in json.load(open('MANIFEST.json'))['checks']))"); do
-    out=$(./check $c --tier quick 2>&1); rc=$?
+  ( cd $WT && git checkout -q -- . && git clean -fdq && git apply $ROOT/seeded/$id/patch.diff ) || { echo "$id APPLY-FAILED" | tee -a $ROOT/seeded/matrix.tsv.new; continue; }
+  for c in $checks; do
+    out=$(cd $VC && ./check $c --tier quick 2>&1); rc=$?
     nv=$(echo "$out" | grep -c '^VIOLATION')
-    rp=$(echo "$out" | grep '^VIOLATION' | head -1 | sed 's/.*replay=//')
-    kind=""; [ -n "$rp" ] && [ -f "$rp" ] && kind=$(python3 -c "import json,sys;d=json.load(open('$rp'));print(d.get('kind') or d.get('violations',[{}])[0].get('kind',''))" 2>/dev/null)
-    printf "%s\t%s\t%s\t%s\t%s\n" $id $c $rc $nv "$kind" | tee -a seeded/matrix.tsv.new
+    rp=$(echo "$out" | grep '^VIOLATION' | head -1 | sed 's/.*replay=//; s/ .*//')
+    kind=""; [ -n "$rp" ] && [ -f "$rp" ] && kind=$(python3 -c "import json;print(json.load(open('$rp')).get('kind',''))" 2>/dev/null)
+    printf "%s\t%s\t%s\t%s\t%s\n" $id $c $rc $nv "$kind" >> $ROOT/seeded/matrix.tsv.new
   done
-  git -C /repo checkout -- . ; git -C /repo clean -fdq
+  echo "$id done: $(grep -P "^$id\t" $ROOT/seeded/matrix.tsv.new | awk -F'\t' '$3!=0{printf "%s ", $2}')"
 done
-mv seeded/matrix.tsv.new seeded/matrix.tsv
+mv $ROOT/seeded/matrix.tsv.new $ROOT/seeded/matrix.tsv
+git -C /repo worktree remove --force $WT; rm -rf $VC
